@@ -225,10 +225,11 @@ def main():
                 mg = verdict_m(ans.get(qid + ".g"), True)
                 c5 = verdict_c(d5)
                 bump("poison5/" + ("flipped" if c5 != cd else "same"))
-                if not same(c5, mg, True):
-                    ck.violation("corr_bdual5_%s.txt" % qid, head + "BDUALP 5 %s %s\n# model: %s  C: %s\n" % (cs, rs, mg, c5),
-                                 "correspondence of basis_dualstatus with pstatus = 5 broke: C %s, model %s" % (c5, mg), no_input=True, match=dict(kind="corr-bdual5"))
                 if c5 != cd:
+                    # the real function reads the stack value; the model with pstatus = 5 must predict what it did
+                    if not same(c5, mg, True):
+                        ck.violation("corr_bdual5_%s.txt" % qid, head + "BDUALP 5 %s %s\n# model: %s  C: %s\n" % (cs, rs, mg, c5),
+                                     "correspondence of basis_dualstatus with pstatus = 5 broke: C %s, model %s" % (c5, mg), no_input=True, match=dict(kind="corr-bdual5"))
                     ck.violation("pstatus5_%s.txt" % qid, head + "BDUALP %d %s %s\nBDUALP 5 %s %s\n" % (NEUTRAL_G, cs, rs, cs, rs),
                                  "QSexact_basis_dualstatus: the verdict for basis %s %s depends on the uninitialised fi.pstatus: %s with stack value 3, %s with stack value 5"
                                  % (cs, rs, cd, c5), match=dict(kind="pstatus-garbage"))
